@@ -210,6 +210,35 @@ pub fn c16q_derived_boxed_forms() {
 	like::<SMixed3, Arc<SMixed3>, 12>(&m, &Arc::new(m2));
 }
 
+#[kani::proof]
+#[kani::unwind(8)]
+pub fn c16q_pointer_to_zero_sized_with_encoding() {
+	use crate::gen_derive::OneV;
+	like::<OneV, Box<OneV>, 4>(&OneV::Only, &Box::new(OneV::Only));
+	like::<OneV, Rc<OneV>, 4>(&OneV::Only, &Rc::new(OneV::Only));
+	like::<&OneV, OneV, 4>(&&OneV::Only, &OneV::Only);
+	// and a following value is read from the right offset
+	let t = (OneV::Only, 0xabu8);
+	let mut b = Buf::<4>::new(); t.encode_to(&mut b);
+	let mut inp = b.bytes();
+	match <(Arc<OneV>, u8)>::decode(&mut inp) { Ok((_, x)) => { assert!(x == 0xab && inp.is_empty()); }, Err(_) => { assert!(false, "tuple with a pointer to a zero-sized value failed to decode"); } }
+	let bad = [6u8];
+	assert!(Box::<OneV>::decode(&mut &bad[..]).is_err(), "Box<T> accepted bytes T rejects");
+}
+/// slices are declared to encode like the map/set they list, whatever their order: two concrete keys out of order
+#[kani::proof]
+#[kani::unwind(8)]
+pub fn c16t_unsorted_slice_vs_map() {
+	let v: [u8; 2] = kani::any();
+	let mut m = BTreeMap::new(); m.insert(3u8, v[0]); m.insert(9u8, v[1]);
+	let unsorted: &[(u8, u8)] = &[(9, v[1]), (3, v[0])];
+	let mut a = Buf::<8>::new(); unsorted.encode_to(&mut a);
+	assert!(a.n == 5 && a.d[0] == 8);
+	let r = BTreeMap::<u8, u8>::decode(&mut Pre::count(2, &a.d[1..5]));
+	match &r { Ok(d) => { assert!(d.same(&m), "bytes of an unsorted slice decode to a different map"); }, Err(_) => { assert!(false, "bytes of a slice declared EncodeLike<BTreeMap> do not decode as the map"); } }
+	core::mem::forget((m, r));
+}
+
 /// negative twin: u16 "like" u32 must FAIL
 #[kani::proof]
 #[kani::unwind(8)]
